@@ -46,7 +46,8 @@ FmtDev(toks) ==
 JudgeC11(e) ==
   LET c == Cases[e.cid] IN
   CASE e.ev = "parse" ->
-        IF e.res # "nil" THEN
+        IF e.res # "nil" /\ e.unspec THEN NAv    \* a layout whose acceptance is left open: nothing is claimed unless it is accepted
+        ELSE IF e.res # "nil" THEN
              IF "flags_register_sticky" \in Devs /\ HasTok(c.tokens, "flags") /\ c.part = "seq"
              THEN Known("flags_register_sticky", "ReadFile rejects a well-formed schema")
              ELSE Bad("ReadFile rejects a well-formed schema (" \o e.layout \o " layout): " \o e.res)
